@@ -442,15 +442,28 @@ class Fn:
                         self._op_deps(a, work, info)
         return seen, info
 
+    def _place_deps(self, p, work, info):
+        """field-sensitive for single-def tuple/array/struct aggregates: `_t.i` depends on operand i only"""
+        l, proj = p
+        for e in proj:
+            if e[0] == "index":
+                work.append(e[1])
+            if e[0] == "field":
+                info["fields"].add((e[3], e[2]))
+        if proj and proj[0][0] == "field":
+            d = self.single_def(l)
+            if d and d[0] == "assign" and d[3]["k"] == "aggregate" and d[3]["akind"] in ("tuple", "array", "closure"):
+                idx = proj[0][1]
+                ops = d[3]["ops"]
+                if idx < len(ops):
+                    info.setdefault("via_aggregate", []).append(l)
+                    self._op_deps(ops[idx], work, info)
+                    return
+        work.append(l)
+
     def _op_deps(self, op, work, info):
         if op["k"] in ("copy", "move"):
-            p = P(op["place"])
-            work.append(p[0])
-            for e in p[1]:
-                if e[0] == "index":
-                    work.append(e[1])
-                if e[0] == "field":
-                    info["fields"].add((e[3], e[2]))
+            self._place_deps(P(op["place"]), work, info)
         elif op["k"] == "const":
             info["consts"].append(op)
 
@@ -459,13 +472,7 @@ class Fn:
         if k in ("use", "cast", "repeat"):
             self._op_deps(rv["op"], work, info)
         elif k in ("ref", "rawptr", "discr"):
-            p = P(rv["place"])
-            work.append(p[0])
-            for e in p[1]:
-                if e[0] == "index":
-                    work.append(e[1])
-                if e[0] == "field":
-                    info["fields"].add((e[3], e[2]))
+            self._place_deps(P(rv["place"]), work, info)
         elif k == "binop":
             info["binops"].append(rv)
             self._op_deps(rv["l"], work, info)
